@@ -177,7 +177,9 @@ Record Inv (c : cfg) (w : world) : Prop := {
            teq_on (universe c) (ptable (wp w)) (advertised (ws w));
   I_fresh : forall id, conn (ws w) = Some id -> up (wp w) = Some id -> synced (ws w) = false ->
             teq_on (universe c) (ptable (wp w)) empty;
-  I_closed : closed (ws w) = true -> conn (ws w) = None }.
+  I_closed : closed (ws w) = true -> conn (ws w) = None;
+  (* the session's capability flag is the one of the CURRENT connection *)
+  I_cap : forall id, conn (ws w) = Some id -> up (wp w) = Some id -> fbasn (ws w) = pcap (wp w) }.
 
 Lemma inv0 c : Inv c world0.
 Proof. constructor; cbn; intros; try discriminate; try reflexivity. intros k. reflexivity. Qed.
@@ -186,7 +188,7 @@ Proof. constructor; cbn; intros; try discriminate; try reflexivity. intros k. re
 Lemma abort_folds c w : Inv c w ->
   pending (abort (ws w)) = None /\ teq (advertised (abort (ws w))) (desired w) /\ conn (abort (ws w)) = None.
 Proof.
-  intros [Hd _ _ _]. unfold abort. cbn. repeat split. destruct (pending (ws w)); assumption.
+  intros [Hd _ _ _ _]. unfold abort. cbn. repeat split. destruct (pending (ws w)); assumption.
 Qed.
 
 Lemma inv_abort c w : Inv c w -> Inv c (with_sess w (abort (ws w))).
@@ -202,14 +204,17 @@ Proof.
   unfold covers. rewrite forallb_forall. intros H Hk Hn. specialize (H k Hk). rewrite Hn in H. exact H.
 Qed.
 
-Lemma deliver_same p id ms : up p = Some id -> deliver p id ms = {| up := up p; ptable := apply_msgs (ptable p) ms |}.
+Lemma deliver_same p id ms : up p = Some id -> deliver p id ms = {| up := up p; ptable := apply_msgs (ptable p) ms; pcap := pcap p |}.
 Proof. intros H. unfold deliver. rewrite H, N.eqb_refl. reflexivity. Qed.
 Lemma deliver_up p id ms : up (deliver p id ms) = up p.
 Proof. unfold deliver. destruct (up p) as [c'|] eqn:E; [|assumption]. destruct (c' =? id); [reflexivity | assumption]. Qed.
 
+Lemma deliver_pcap p id ms : pcap (deliver p id ms) = pcap p.
+Proof. unfold deliver. destruct (up p) as [c'|]; [|reflexivity]. destruct (c' =? id); reflexivity. Qed.
+
 Lemma step_inv c w e w' : Inv c w -> step c w e = Some w' -> Inv c w'.
 Proof.
-  intros HI. pose proof HI as [Hd Hs Hf Hc]. destruct w as [s p d]. cbn [ws wp desired] in *.
+  intros HI. pose proof HI as [Hd Hs Hf Hc Hcap]. destruct w as [s p d]. cbn [ws wp desired] in *.
   destruct e; cbn [step ws wp desired].
   - (* ESet *)
     destruct (forallb _ l); [|discriminate]. intros [= <-].
@@ -227,7 +232,7 @@ Proof.
     set (adv := match pending s with Some p0 => p0 | None => advertised s end) in *.
     destruct (negb (covers c (fun k => is_some (adv k)) ord)) eqn:Ecov; [discriminate|]. apply negb_false_iff in Ecov.
     assert (Hadv : teq adv d) by (unfold adv; destruct (pending s); assumption).
-    destruct sent as [n|]; intros [= <-]; constructor; cbn; try discriminate; auto.
+    destruct sent as [n|]; intros [= <-]; constructor; cbn; try discriminate; auto; try solve [intros id' [= <-] Hup; rewrite deliver_up in Hup; rewrite deliver_pcap; apply (Hcap id eq_refl Hup)].
     intros id' [= <-] Hup _ k Hk. rewrite deliver_up in Hup. rewrite deliver_same by assumption. cbn [ptable].
     rewrite first_msgs_spec.
     destruct (is_some (adv k)) eqn:Ek.
@@ -242,7 +247,7 @@ Proof.
       [discriminate|]. apply negb_false_iff, andb_true_iff in Ecov. destruct Ecov as [Ec1 Ec2].
     destruct sent as [n|]; intros [= <-].
     + constructor; cbn; try discriminate; auto. rewrite Ep. assumption.
-    + constructor; cbn; try discriminate; auto.
+    + constructor; cbn; try discriminate; auto; try solve [intros id' [= <-] Hup; rewrite deliver_up in Hup; rewrite deliver_pcap; apply (Hcap id eq_refl Hup)].
       intros id' [= <-] Hup _ k Hk. rewrite deliver_up in Hup. rewrite deliver_same by assumption. cbn [ptable].
       apply diff_msgs_spec.
       * apply (Hs id eq_refl Hup Esy k Hk).
@@ -270,7 +275,7 @@ Theorem converges c es w : run c world0 es = Some w -> stable w ->
   forall k, In k (universe c) -> ptable (wp w) k = desired w k.
 Proof.
   intros Hr (id & Hc & Hu & Hs & Hp) k Hk.
-  pose proof (run_inv c es _ _ (inv0 c) Hr) as [Hd Hsy _ _].
+  pose proof (run_inv c es _ _ (inv0 c) Hr) as [Hd Hsy _ _ _].
   rewrite Hp in Hd. rewrite (Hsy id Hc Hu Hs k Hk). apply Hd.
 Qed.
 
@@ -349,4 +354,22 @@ Proof.
   - destruct (pending (ws w)) as [new|]; [|contradiction]. intros H.
     exists (advertised (ws w)), new. split; [|reflexivity].
     eapply diff_msgs_justified. destruct sent; [eapply In_firstn; exact H | exact H].
+Qed.
+
+(* ------------------------------------------------------------ per-connection capability *)
+(* an accepted handshake sets the session's flag to what THIS OPEN announced *)
+Theorem handshake_sets_capability c w id asn fb w' :
+  step c w (EHandshake id asn fb true) = Some w' ->
+  fbasn (ws w') = fb /\ pcap (wp w') = fb /\ conn (ws w') = Some id /\ up (wp w') = Some id.
+Proof.
+  cbn [step]. destruct (closed (ws w) || is_some (conn (ws w))); [discriminate|].
+  destruct (negb (Bool.eqb true (hs_accept c asn fb))); [discriminate|]. intros [= <-]. cbn. auto.
+Qed.
+
+(* every flush encodes with the capability of the connection it writes to *)
+Theorem flush_uses_connection_capability c es w id :
+  run c world0 es = Some w -> conn (ws w) = Some id -> up (wp w) = Some id ->
+  emit_width w = pcap (wp w).
+Proof.
+  intros Hr Hc Hu. pose proof (run_inv c es _ _ (inv0 c) Hr) as [_ _ _ _ Hcap]. exact (Hcap id Hc Hu).
 Qed.
